@@ -175,7 +175,11 @@ func stdSeqHasSuffix(_ context.Context, suffix, subject rel.Value) (rel.Value, e
 }
 
 func stdSeqRepeat(_ context.Context, arg rel.Value) (rel.Value, error) {
-	n := int(arg.(rel.Number))
+	num, is := arg.(rel.Number)
+	if !is {
+		return nil, fmt.Errorf("//seq.repeat: count not a number: %v", arg)
+	}
+	n := int(num)
 	return rel.NewNativeFunction("repeat(n)", func(_ context.Context, arg rel.Value) (rel.Value, error) {
 		switch seq := arg.(type) {
 		case rel.String:
